@@ -42,8 +42,12 @@ impl Check for C13C {
                 max_creations: 1,
                 names: &["n", "x", "a:b", "", "1a", "a b", "xml", "a:b:c"],
                 values: &["v", "", "a b", "x<y", "a&b"],
+            chardata: &[],
+            chardata_extra: 0,
+            chardata_full: true,
+            attach_only: false,
             },
-            monitors: Monitors { tree: false, spec: true, order: false },
+            monitors: Monitors { tree: false, spec: true, order: false, chardata: false, serial: false },
             frontier,
             expand: stage != format!("bfs{}", depth - 1),
             order_queries: &[],
